@@ -75,6 +75,9 @@ def main():
         if sel and not any(s in name for s in sel):
             continue
         meta = json.load(open(m))
+        if meta.get("not_caught"):
+            print("%-40s %s  (documented miss, skipped)" % (name, meta["property"]), flush=True)
+            continue
         pid = meta["property"]
         rules = re.findall(r"C\d\d\.\d[a-z]?", " ".join(meta["caught_by"]))
         try:
